@@ -5,5 +5,5 @@ mcScriptCrash2 == << <<"build", "">>, <<"clean", "">>, <<"build", "">> >>
 mcScriptCrash0 == << <<"build", "">> >>
 mcScriptDrop == << <<"rules", 3>>, <<"build", "">>, <<"rules", 1>>, <<"clean", "">>, <<"build", "">> >>
 mcScriptDrop2 == << <<"rules", 3>>, <<"build", "">>, <<"rules", 1>>, <<"build", "q">>, <<"clean", "q">>, <<"build", "">> >>
-mcScriptEmpty == << <<"build", "">>, <<"build", "">>, <<"clean", "">>, <<"build", "">>, <<"edit", "s", "S1">>, <<"build", "">>, <<"clean", "q">>, <<"build", "q">> >>
+mcScriptEmpty == << <<"build", "">>, <<"build", "">>, <<"clean", "">>, <<"build", "">>, <<"edit", "s", "S1">>, <<"build", "">>, <<"clean", "q">>, <<"build", "q">>, <<"rules", 2>>, <<"build", "">>, <<"clean", "">>, <<"build", "">> >>
 ====
